@@ -43,6 +43,99 @@ CHECKS = {
             'reference moves the untransformed object by main = O + B^T aux.',
             REGION + '; rotation-completion contracts on the real normalize_* '
             'functions', '3 C04'),
+    'C05': ('exploration',
+            'Oracle R on decks with universes nested to depth 4, every fill / '
+            'TRCL spelling, reuse of a universe with different and identical '
+            'transformations; the reference locates each probe through the '
+            'hierarchy and predicts the (filler, container) provenance chain of '
+            'the volume that must hold it.',
+            REGION, '3 C05'),
+    'C06': ('exploration',
+            'Oracle R on LAT=1 decks built from chosen lattice vectors, so that '
+            'the element index, the first-index-fastest array order, own-universe '
+            'and 0 entries, declared ranges and fill/TRCL composition are known '
+            'by construction and compared at probe points in and just outside '
+            'every element.',
+            REGION, '3 C06'),
+    'C07': ('exploration',
+            'Same for LAT=2 decks: hexagons built from three vertex vectors '
+            '(regular and irregular, any orientation, 6 or 8 planes, both '
+            'handednesses and plane orders).',
+            REGION, '3 C07'),
+    'C08': ('exploration',
+            'Every file written for the generators of C01/C05/C06/C07 and for '
+            'hostile decks, under random option combinations, is re-read by an '
+            'independent tokenizer and checked against ~25 named cross-reference '
+            'rules; evidence reports the number of individual rule checks.',
+            'runtime monitoring: structural validator (offline checker) over '
+            'every written file', '3 C08'),
+    'C09': ('exploration',
+            'For every non-virtual volume that holds judged probe points the '
+            'GEOMCOMP composition is compared with (material, density value) of '
+            'the leaf cell the reference model locates there; same-value '
+            'respellings must share one composition, different values must not.',
+            REGION + ' joined with the GEOMCOMP/COMPOSITION blocks', '3 C09'),
+    'C10': ('exploration',
+            'COMPOSITION blocks written for generated material cards are '
+            're-read and compared nuclide by nuclide with an independent ZAID '
+            'table and the density/fraction rules; mixed signs must raise.',
+            'runtime monitoring: offline checker of the COMPOSITION block vs a '
+            'reference model of material cards', '3 C10'),
+    'C11': ('exploration',
+            'The real MIP -> cellcard.split -> get_ast -> pot_complement path is '
+            'driven with expression strings printed from my own AST; the tree '
+            'that comes back is evaluated on all 2^n sense assignments. The core '
+            '(all trees up to 3 leaves quick / 4 leaves thorough, 4 spacing '
+            'policies) is enumerated completely; larger trees are sampled.',
+            'runtime monitoring: truth-table oracle on the real parser and '
+            'complement elimination, exhaustive bounded core', '3 C11'),
+    'C12': ('exploration',
+            'Set of VOLU numbers and the NOTE line on stdout are compared with '
+            'the zero-importance cells computed from cell-card keywords or IMP '
+            'data cards (own shorthand expansion).',
+            'runtime monitoring: offline checker of VOLU ids and stdout vs an '
+            'importance model', '3 C12'),
+    'C13': ('exploration',
+            'Each deck is converted under many option sets; every output must '
+            'agree with the reference model at the same probes and give every '
+            'provenance key the same composition; a contract on the real '
+            'remove_duplicate_surfaces evaluates every merged pair of surfaces.',
+            REGION + ' across option sets; contract on the real '
+            'de-duplication function', '3 C13'),
+    'C14': ('exploration',
+            'Metamorphic: outputs of a deck and of its MCNP-equivalent rewrites '
+            '(case, blanks, tabs, continuations, comments, message block, number '
+            'respellings, shorthand) must be token-equal.',
+            'runtime monitoring: metamorphic output comparison over recorded '
+            'conversions', '3 C14'),
+    'C15': ('exploration',
+            'Metamorphic: the deck with LIKE n BUT cards and the deck with the '
+            'cards expanded explicitly must give token-equal outputs; both also '
+            'checked against the reference model.',
+            'runtime monitoring: metamorphic output comparison + ' + REGION[20:],
+            '3 C15'),
+    'C16': ('exploration',
+            'BOUNDARY_CONDITION entries are matched with the flagged surfaces of '
+            'the model by kind and by locus (independent evaluation of the '
+            'designated SURF), with duplicates, TR numbers, unused and '
+            'imp=0-only surfaces, macrobody flags.',
+            'runtime monitoring: offline checker of the BOUNDARY_CONDITION '
+            'block vs flagged model surfaces', '3 C16'),
+    'C17': ('fault_enumeration',
+            'For every fault class of the statement one fault is injected at '
+            'every applicable site of valid generated decks (the valid deck must '
+            'convert first); the faulty run must raise / exit non-zero and never '
+            'print "finished at". Counted per class and site.',
+            'runtime monitoring: fault injection at every applicable site, '
+            'exit/exception oracle', '3 C17'),
+    'C18': ('exploration',
+            'History monitor: random sequences of conversions (incl. failing '
+            'ones) in one interpreter with recurrences, fresh processes under '
+            'several hash seeds, audit hook on file access, input bytes/mtime, '
+            'module-state fingerprints before/after every conversion.',
+            'runtime monitoring: history checker (byte equality across '
+            'recurrences/processes/hash seeds), sys.addaudithook, module-state '
+            'snapshots', '3 C18'),
 }
 
 PENDING = {}
